@@ -296,6 +296,12 @@ def run_case(case, ctx):
         dsw(0.5)
         rich = dsw.richardson
         ctx.count('pairing_after_switch_asserted')
+        # ... and the rule the switched object now applies is the rule of its present configuration
+        w_sw = np.asarray(dsw.fd_rule.rule(ratio), dtype=float)
+        if w_sw.shape != w.shape or not np.allclose(w_sw, w, rtol=1e-9, atol=1e-12 * float(np.max(np.abs(w)))):
+            ctx.reject('rule_of_a_switched_object_differs_from_a_fresh_rule', observed=w_sw, expected=w,
+                       detail=dict(reached_by='setters', from_method=m0, from_order=o0))
+            return
         if int(rich.order) != surviving[0] or any((p - int(rich.order)) % int(rich.step) for p in surviving):
             ctx.reject('richardson_not_matched_to_surviving_powers', observed=[int(rich.order), int(rich.step)],
                        expected=surviving[:4], detail=dict(reached_by='setters', from_method=m0, from_order=o0))
